@@ -202,6 +202,32 @@ func (s *NumRangeShard) EqualStart(key interface{}, index int) bool {
 	return s.Shards[index].Start == v
 }
 
+// dateKeyTime gives the instant a date sharding key denotes (unix timestamp, "YYYY-MM-DD" or "YYYY-MM-DD HH:MM:SS"),
+// ok is false when the key is not in one of those forms.
+func dateKeyTime(key interface{}) (tm time.Time, ok bool) {
+	switch val := key.(type) {
+	case int:
+		return time.Unix(int64(val), 0), true
+	case uint64:
+		return time.Unix(int64(val), 0), true
+	case int64:
+		return time.Unix(val, 0), true
+	case string:
+		for _, layout := range []string{"2006-01-02 15:04:05", "2006-01-02"} {
+			if t, err := time.ParseInLocation(layout, val, time.Local); err == nil {
+				return t, true
+			}
+		}
+	}
+	return time.Time{}, false
+}
+
+// isStartOfDay tells whether tm is the first instant of its day; a key that cannot be read is never a period start,
+// so that a '<' condition keeps the table of the key itself
+func isStartOfDay(tm time.Time) bool {
+	return tm.Hour() == 0 && tm.Minute() == 0 && tm.Second() == 0 && tm.Nanosecond() == 0
+}
+
 type DateYearShard struct {
 }
 
@@ -234,13 +260,18 @@ func (s *DateYearShard) FindForKey(key interface{}) (int, error) {
 	return s.getNumYear(key)
 }
 
+// EqualStart tells whether key is the first instant of the year stored in table index
 func (s *DateYearShard) EqualStart(key interface{}, index int) bool {
 	numYear, err := s.getNumYear(key)
 	if err != nil {
 		return false
 	}
+	tm, ok := dateKeyTime(key)
+	if !ok {
+		return false
+	}
 
-	return numYear == index
+	return numYear == index && tm.Month() == time.January && tm.Day() == 1 && isStartOfDay(tm)
 }
 
 type DateMonthShard struct {
@@ -295,13 +326,18 @@ func (s *DateMonthShard) FindForKey(key interface{}) (int, error) {
 	return s.getNumYearMonth(key)
 }
 
+// EqualStart tells whether key is the first instant of the month stored in table index
 func (s *DateMonthShard) EqualStart(key interface{}, index int) bool {
 	numYear, err := s.getNumYearMonth(key)
 	if err != nil {
 		return false
 	}
+	tm, ok := dateKeyTime(key)
+	if !ok {
+		return false
+	}
 
-	return numYear == index
+	return numYear == index && tm.Day() == 1 && isStartOfDay(tm)
 }
 
 type DateDayShard struct {
@@ -356,13 +392,18 @@ func (s *DateDayShard) FindForKey(key interface{}) (int, error) {
 	return s.getNumYearMonthDay(key)
 }
 
+// EqualStart tells whether key is the first instant of the day stored in table index
 func (s *DateDayShard) EqualStart(key interface{}, index int) bool {
 	numYear, err := s.getNumYearMonthDay(key)
 	if err != nil {
 		return false
 	}
+	tm, ok := dateKeyTime(key)
+	if !ok {
+		return false
+	}
 
-	return numYear == index
+	return numYear == index && isStartOfDay(tm)
 }
 
 type DefaultShard struct {
